@@ -244,6 +244,14 @@ RecEvalG.__module__ = __name__
 # ------------------------------------------------------------------------------------------------
 # state capture
 # ------------------------------------------------------------------------------------------------
+def _public_config(interp):
+    """the configuration as the public API shows it"""
+    try:
+        return tuple(interp.configuration)
+    except Exception as e:  # noqa
+        return ('<raised %s>' % type(e).__name__,)
+
+
 def snap_interp(interp, rec):
     ev = interp._evaluator
     old = []
@@ -270,6 +278,7 @@ def snap_interp(interp, rec):
         ignore=bool(interp._ignore_contract),
         ctx=ctx_value(getattr(ev, '_context', {})),
         old=tuple(sorted(old)),
+        public_config=_public_config(interp),
     )
 
 
